@@ -423,7 +423,8 @@ def check_merge(ctx):
                 mods.append((s, U(base)))
         elif isinstance(s, ast.Assign) and U(s.targets[0]) == mean_name and s is not ms:
             mods.append((s, mean_name))
-    shifts = [(s, b) for s, b in mods if isinstance(s, ast.AugAssign) and isinstance(s.op, ast.Sub) and U(s.value) == f"grid.shape[{axv}]" and U(s.target.slice) == axv]
+    shifts = [(s, b) for s, b in mods if isinstance(s, ast.AugAssign) and isinstance(s.op, ast.Sub)
+              and U(fv.expand(s.value, s, stop=("grid", axv), allow_mutated=True)) == f"grid.shape[{axv}]" and U(s.target.slice) == axv]
     # ---- alignment of the *other* periodic axes: a cluster that was merged across another periodic boundary before may be
     # given relative to another periodic image; the operand is moved to the image closest to the other operand
     # (x[a] -= round((x[a] - y[a]) / shape[a]) * shape[a] for every periodic a != ax) before the mean is taken
